@@ -13,6 +13,7 @@ var maxTimeNS = new(big.Int).Mul(big.NewInt(315537897599), big.NewInt(1_000_000_
 
 func (e *Exec) symTime(name string) TimeVal {
 	t := e.input(name, SInt)
+	t.NN = true
 	e.addPC(e.tt.IntCmp(">=", t, e.tt.Int64(0)))
 	e.addPC(e.tt.IntCmp("<=", t, e.tt.Int(maxTimeNS)))
 	return TimeVal{NS: t}
@@ -20,6 +21,7 @@ func (e *Exec) symTime(name string) TimeVal {
 
 func (e *Exec) symDiscount(name string) *Term {
 	t := e.input(name, SInt)
+	t.NN = true
 	e.addPC(e.tt.IntCmp(">", t, e.tt.Int64(0)))
 	e.addPC(e.tt.IntCmp("<", t, e.tt.Int(prec)))
 	return t
